@@ -2,6 +2,7 @@ import DinoProofs.Lemmas.ScalingMoist
 import DinoProofs.Lemmas.ScalingSW
 import DinoProofs.Lemmas.ScalingHS
 import DinoProofs.Lemmas.ScalingStep
+import DinoProofs.Lemmas.ScalingTraj
 import DinoProofs.Lemmas.Units
 import Mathlib.Algebra.Algebra.Prod
 import Mathlib.Tactic.NormNum
@@ -352,6 +353,64 @@ theorem diffusion_step_filter_invariant (ex : K → K) (t k dt tau : K) (order :
 
 end T122ord
 
+
+/-! ## T12.2 for the equation classes of the model (`tree_math` vectors, schemes, histories) -/
+section T122classes
+open Dino.Imex Dino.Invariants
+variable {K M N : Type} [Field K] [AddCommGroup M] [Module K M] [CommRing N] [Algebra K N] [Div N]
+variable [BEq K] [LawfulBEq K]
+variable {g : Scale K} (p : PrimitiveEquations K M N)
+
+/-- **T12.2 (one step, any class, any one-state scheme)**: `backward_forward_euler`,
+ `crank_nicolson_rk2`, the low-storage family (`crank_nicolson_rk3/rk4`), `imex_runge_kutta`
+ (`imex_rk_sil3`); `invOf η` is the inverse `numpy.linalg.inv` returned for the step size `η`, `invOf' (t·η)`
+ the one under the other scale -/
+theorem pe_scheme_step_commutes (hg : g.Valid) (hl : OpsLaws p.ops) (hp : ProjLaws p.ops) (cls : Cls) (c : K)
+    (n : ℕ) (hn : p.vert.layers = n) (invOf invOf' : K → ℕ → List (List K))
+    (hs : ∀ η, InvScaled g n (invOf η) (invOf' (g.t * η))) (hc : ∀ η, ConstMode p n (invOf η))
+    (hsq : ∀ η l, (invOf η l).length = 2 * n + 1) (sch : Scheme K) (dt : K) (f : TM (StateWithTime K M) → TM (StateWithTime K M))
+    (hf : sch.step (peImEx cls p invOf) dt = some f) :
+    ∃ f', sch.step (peImEx cls (actEq g p) invOf') (g.t * dt) = some f'
+      ∧ ∀ u : StateWithTime K M, f' (TM.val (actStateT g c p.ops.oneModal u))
+          = tmMap (actStateT g c p.ops.oneModal) (f (TM.val u)) := by
+  obtain ⟨f', h1, h2⟩ := (scheme_step_actOn (tm_actionLaws hg c p.ops.oneModal)
+    (pe_intertwined p hg hl hp cls c n hn invOf invOf' hs hc hsq) sch dt).1 f hf
+  exact ⟨f', h1, fun u => (h2 (TM.val u) trivial).1⟩
+
+/-- **T12.2 (trajectories, any class)**: any history of (scheme, step size, filters), every `dt` scaled by
+ `t`, filters related by `FilterScaled` -/
+theorem pe_history_commutes (hg : g.Valid) (hl : OpsLaws p.ops) (hp : ProjLaws p.ops) (cls : Cls) (c : K)
+    (n : ℕ) (hn : p.vert.layers = n) (invOf invOf' : K → ℕ → List (List K))
+    (hs : ∀ η, InvScaled g n (invOf η) (invOf' (g.t * η))) (hc : ∀ η, ConstMode p n (invOf η))
+    (hsq : ∀ η l, (invOf η l).length = 2 * n + 1)
+    {h h' : List (Entry K (TM (StateWithTime K M)))}
+    (hh : HistScaled Proper g.t (tmMap (actStateT g c p.ops.oneModal)) h h') (u : StateWithTime K M) :
+    runHistory (peImEx cls (actEq g p) invOf') h' (TM.val (actStateT g c p.ops.oneModal u))
+      = (runHistory (peImEx cls p invOf) h (TM.val u)).map (tmMap (actStateT g c p.ops.oneModal)) :=
+  (runHistory_actOn (tm_actionLaws hg c p.ops.oneModal)
+    (pe_intertwined p hg hl hp cls c n hn invOf invOf' hs hc hsq) hh (TM.val u) trivial).1
+
+/-- `semi_implicit_leapfrog` on pairs of states of any class -/
+theorem pe_leapfrog_commutes (hg : g.Valid) (hl : OpsLaws p.ops) (hp : ProjLaws p.ops) (cls : Cls) (c : K)
+    (n : ℕ) (hn : p.vert.layers = n) (invOf invOf' : K → ℕ → List (List K))
+    (hs : ∀ η, InvScaled g n (invOf η) (invOf' (g.t * η))) (hc : ∀ η, ConstMode p n (invOf η))
+    (hsq : ∀ η l, (invOf η l).length = 2 * n + 1) (dt α : K) (u v : StateWithTime K M) :
+    leapfrog (peImEx cls (actEq g p) invOf') (g.t * dt) α
+        (TM.val (actStateT g c p.ops.oneModal u), TM.val (actStateT g c p.ops.oneModal v))
+      = (tmMap (actStateT g c p.ops.oneModal) (leapfrog (peImEx cls p invOf) dt α (TM.val u, TM.val v)).1,
+         tmMap (actStateT g c p.ops.oneModal) (leapfrog (peImEx cls p invOf) dt α (TM.val u, TM.val v)).2) :=
+  (leapfrog_actOn (tm_actionLaws hg c p.ops.oneModal)
+    (pe_intertwined p hg hl hp cls c n hn invOf invOf' hs hc hsq) dt α (TM.val u, TM.val v) trivial trivial).1
+
+/-- a history without filters under the other scale: scale every `dt` -/
+theorem histScaled_scale_dt {V : Type} (St : V → Prop) (t : K) (A : V → V) (h : List (K × Scheme K)) :
+    HistScaled St t A (h.map fun q => ⟨q.2, q.1, []⟩) (h.map fun q => ⟨q.2, t * q.1, []⟩) := by
+  induction h with
+  | nil => exact List.Forall₂.nil
+  | cons q h ih => exact List.Forall₂.cons ⟨rfl, rfl, List.Forall₂.nil⟩ ih
+
+end T122classes
+
 /-! ## non-vacuity -/
 section examples
 
@@ -440,6 +499,30 @@ example :
         (actState toyG 13 toyOps.oneModal toyState.state)).divergence
       ≠ (actTend toyG (toyEq.explicitTerms toyState.state)).divergence := by
   decide +kernel
+
+
+/-- the identity, the inverse of `1 - η·L` at `η = 0` -/
+def eye5 : List (List ℚ) := [[1, 0, 0, 0, 0], [0, 1, 0, 0, 0], [0, 0, 1, 0, 0], [0, 0, 0, 1, 0], [0, 0, 0, 0, 1]]
+
+theorem toyConstMode : ConstMode toyEq 2 (fun _ => eye5) :=
+  ⟨by decide +kernel, by decide +kernel, by decide +kernel⟩
+
+/-- T12.2 for the classes: a three-step history (Euler, Crank–Nicolson RK2, Euler) of the cloud class on the toy
+ problem with concrete inverses (all hypotheses instantiated) -/
+example :
+    Invariants.runHistory (Invariants.peImEx .cloud (actEq toyG toyEq) (fun _ _ => actInverse toyG 2 eye5))
+        ([(1 / 10, Invariants.Scheme.bfe), (1 / 5, .cnrk2), (1 / 10, .bfe)].map fun q => ⟨q.2, toyG.t * q.1, []⟩)
+        (Invariants.TM.val (actStateT toyG 13 toyOps.oneModal toyState))
+      = (Invariants.runHistory (Invariants.peImEx .cloud toyEq (fun _ _ => eye5))
+          ([(1 / 10, Invariants.Scheme.bfe), (1 / 5, .cnrk2), (1 / 10, .bfe)].map fun q => ⟨q.2, q.1, []⟩)
+          (Invariants.TM.val toyState)).map (tmMap (actStateT toyG 13 toyOps.oneModal)) :=
+  pe_history_commutes toyEq toyG_valid toyLaws toyProj .cloud 13 2 rfl (fun _ _ => eye5)
+    (fun _ _ => actInverse toyG 2 eye5) (fun _ => invScaled_of_actInverse toyG_valid 2 _) (fun _ => toyConstMode)
+    (fun _ _ => rfl) (histScaled_scale_dt _ _ _ _) toyState
+
+/-- `InvScaled` is satisfiable: for any family of inverses, the scaled family of `actInverse` -/
+example (inv : ℕ → List (List ℚ)) : InvScaled toyG 2 inv (fun l => actInverse toyG 2 (inv l)) :=
+  invScaled_of_actInverse toyG_valid 2 inv
 
 /-- T12.0: the number of `g = 9.80616 m s⁻²` under the default-like scale `a` and under `b` -/
 example : (Scale.ofUnits (⟨6371220, 6857, 1, 1⟩ : Scale ℚ) ⟨1000, 60, 1, 1⟩).w [1, -2]
